@@ -655,3 +655,16 @@ package main
 //@   ensures [labels] c.myNode == node.Name ==> c.nodeLabels != nil && SameLabels(c.nodeLabels, node.Labels)
 //@   ensures [otherNode] c.myNode != node.Name ==> c.nodeLabels == old(c.nodeLabels) && result == nil
 //@   assert before syncPeers: [stored] c.nodeLabels != nil && SameLabels(c.nodeLabels, node.Labels)
+
+// layer2Controller.DeleteBalancer (abstracted mode): afterwards the announcer holds nothing for the Service - whether or
+// not the status notification could be sent - and other Services' announcements are untouched
+//@ func (*layer2Controller).DeleteBalancer
+//@   abstract
+//@   requires c != nil && c.announcer != nil && lockstate(c.announcer.RWMutex) == 0
+//@   assert before DeleteBalancer: [named] arg1 == name
+//@   assert after DeleteBalancer: [gone] !(name in c.announcer.ips)
+//@   assert before SplitMetaNamespaceKey: [goneBeforeNotify] !(name in c.announcer.ips)
+//@   ensures [withdrawn] !(name in c.announcer.ips)
+//@ func field:go.universe.tf/metallb/speaker.layer2Controller.onStatusChange
+//@   trusted
+//@   modifies nothing
